@@ -118,7 +118,7 @@ def r_filter(ctx):
                     same = ix == ("idx", red[4]) and w == ("elem", Q.sub(cfi[0], 2), red[4]) and red[3][0] == "call" and callee(red[3]) == "builtins.enumerate" and red[3][2] == (Q.sub(cfi[0], 2),)
                     if same and tmpl == wkey and v_t[2][0] == Q.self_attr("reduction"):
                         okw = True
-                    elif tmpl != wkey:
+                    elif tmpl is not None and wkey is not None and tmpl != wkey:
                         okw, why = False, "reduction keys use '%s' but the columns are named '%s'" % (tmpl, wkey)
                     elif red[3][0] == "call" and callee(red[3]) == "builtins.enumerate" and red[3][2] and red[3][2][0] != Q.sub(cfi[0], 2) and Q.leaves(red[3][2][0]) == Q.leaves(Q.sub(cfi[0], 2)):
                         okw, why = False, "weights are enumerated as %s: component i gets another component's weights" % show(red[3][2][0])[:60]
@@ -141,7 +141,7 @@ def r_filter(ctx):
                 if src[0] == "sub" and src[1] == aggs[0]:
                     tmpl, ix = fmt_key(src[2])
                     it_ok = out[3][0] == "call" and callee(out[3]) == "builtins.enumerate" and out[3][2] == (Q.sub(cfi[0], 1),)
-                    okr = True if tmpl == wkey and ix == ("idx", out[4]) and it_ok else (False if tmpl is not None and tmpl != wkey else None)
+                    okr = True if tmpl == wkey and ix == ("idx", out[4]) and it_ok else (False if tmpl is not None and wkey is not None and tmpl != wkey else None)
             ok1 = v[1][0][0] == "call" and v[1][0][1] == ("attr", Q.SELF, "_block_coordinates")
             if ok1:
                 a = v[1][0][2]
